@@ -41,7 +41,7 @@ COMPONENTS = {"real": ["setigen.voltage.backend (from_data, _read_next_block, co
 ASSUMPTIONS = ["from_data builds its own requantiser (ComplexQuantizer defaults: refresh every call, 10000 samples)",
                "a sub-block whose inner (synthetic) quantisation sits within 1e-7 of a rounding boundary is not value-judged",
                "NPOL=4 in an input header denotes two polarisations (GUPPI convention)"]
-PROBES = ["input_by_refguppi", "input_by_setigen", "four_bit", "input_unpadded", "input_aligned_header", "multi_file_input",
+PROBES = ["input_path_held_another_recording_of_same_size", "input_by_refguppi", "input_by_setigen", "four_bit", "input_unpadded", "input_aligned_header", "multi_file_input",
           "last_file_partial", "length_longer_than_input", "length_shorter_than_input", "length_unspecified",
           "digitize_on", "unseeded_estimate_framing_only", "retry_after_fault", "array_source", "listing_permuted",
           "second_injection_same_backend", "per_stream_digitiser_targets"]
@@ -66,6 +66,8 @@ def generate(rng, tier):
            "n_pad": gen_input_header_extras(rng), "seed": rng.randrange(1 << 30), "npol4": rng.random() < 0.3,
            "std": rng.choice([1.0, 3.0, 10.0, 20.0]), "digitize": rng.random() < 0.7, "template": rng.random() < 0.3,
            "ant_seed": rng.randrange(1 << 30)}
+    if source == "ref" and rng.random() < 0.25:
+        inp["stale"] = rng.choice(["bits", "bits", "chans", "pkt"])
     ops = []
     for _ in range(rng.choice([1, 1, 2])):
         r = rng.random()
@@ -136,7 +138,8 @@ def simplify(sc):
 # ---------------------------------------------------------------------------
 # input made by RefGuppi
 
-def write_ref_input(ctx, sc, stem):
+def write_ref_input(ctx, sc, stem, variant=None):
+    """variant: an earlier, different recording of exactly the same byte size under the same name."""
     ant, el, be, inp = sc["ant"], sc["el"], sc["be"], sc["input"]
     exp = C04.expected_owned(ant, el, be, inp["blocks"])
     obsnchan = be["num_chans"] * ant["n_ant"]
@@ -160,8 +163,14 @@ def write_ref_input(ctx, sc, stem):
         h["PKTSTOP"] = inp["blocks"] * be["spb"]
         re = np.clip(np.around(rng.normal(0.7, std, size=(obsnchan, be["spb"], ant["pols"]))), lo, hi)
         im = np.clip(np.around(rng.normal(-0.4, std * 0.8, size=(obsnchan, be["spb"], ant["pols"]))), lo, hi)
+        if variant == "bits":
+            h["NBITS"] = 12 - el["bits"]
+        elif variant == "chans":
+            h["OBSNCHAN"] = obsnchan * 2
+        elif variant == "pkt":
+            h["PKTIDX"] = 7 + b * be["spb"]
         headers.append(h)
-        datas.append(guppi.encode_block(re + 1j * im, el["bits"]))
+        datas.append(guppi.encode_block((re + 1j * im) if variant is None else (im + 1j * re), el["bits"]))
     bpf = inp["blocks_per_file"]
     for f in range(-(-inp["blocks"] // bpf)):
         data = guppi.write_blocks(headers[f * bpf:(f + 1) * bpf], datas[f * bpf:(f + 1) * bpf])
@@ -254,6 +263,19 @@ def execute(sc, ctx):
     in_stem = seams.path("in")
     seams.listing = "sorted"
     if inp["source"] == "ref":
+        if inp.get("stale"):
+            # the input path held another recording of the same size before, and the library has looked at it
+            write_ref_input(ctx, sc, in_stem, variant=inp["stale"])
+            ru = sv.raw_utils
+            for fn in (lambda: ru.read_header(in_stem + ".0000.raw"), lambda: ru.get_raw_params(in_stem, be["start_chan"]),
+                       lambda: ru.get_blocks_per_file(in_stem), lambda: ru.get_total_blocks(in_stem),
+                       lambda: sv.RawVoltageBackend.from_data(in_stem, W.build_antenna(ant), start_chan=be["start_chan"],
+                                                              num_subblocks=fdc["num_subblocks"])):
+                try:
+                    fn()
+                except Exception:
+                    pass
+            ctx.hit("input_path_held_another_recording_of_same_size")
         write_ref_input(ctx, sc, in_stem)
         ctx.hit("input_by_refguppi")
     else:
